@@ -29,6 +29,8 @@ def gen_case(seed: int, tier: str, index: int, base_gen) -> Dict[str, Any]:
     cfg["use_real"] = False
     cfg["more_rounds"] = []
     cfg["sched"] = {"cost_p": 0.2, "cost_max": 0.003}
+    if rng.random() < 0.3:
+        cfg["sched"].update(wall_jump_p=0.01, wall_jump_max=rng.choice([2.0, 3600.0]))
     cfg["filter"] = rng.choice(["none", "none", "ident", "ident_bytes", "ident_bytes", "ident_absent", "address", "address+ident", "address_nobody",
                                 "empty_address"])
     return c
